@@ -21,7 +21,7 @@ func init() {
 	register(&Scenario{ID: "C09", World: "X", Run: runC09})
 }
 
-var c13Kinds = []string{"honest", "honest", "other-header", "wrong-chain", "bad-validate", "empty-body", "notfound", "unknown-status",
+var c13Kinds = []string{"honest", "honest", "other-header", "wrong-chain", "empty-chain", "bad-validate", "empty-body", "notfound", "unknown-status",
 	"zero-responses", "two-responses", "oversized", "truncated", "garbage", "hang", "reset", "slow"}
 
 func runC13(s *core.Sim, tier string) RunInfo {
@@ -63,6 +63,12 @@ func runC13(s *core.Sim, tier string) RunInfo {
 				sentBy[i] = sent{o, true, false}
 			case "wrong-chain":
 				x := simhdr.WrongChain(target)
+				r.Frames = okFrames(x)
+				sentBy[i] = sent{x, false, false}
+			case "empty-chain":
+				c := simhdr.Clone(target)
+				c.Chain = ""
+				x := c.Sign()
 				r.Frames = okFrames(x)
 				sentBy[i] = sent{x, false, false}
 			case "bad-validate":
